@@ -153,7 +153,12 @@ def fin_env(spec):
         row = lsl.Calc(lambda a: jnp.asarray(pba)[jnp.asarray(a).astype(int)], va)
         vb = lsl.Var(jnp.asarray(0.0), lsl.Dist(tfd.FiniteDiscrete, outcomes=lsl.Value(np.arange(nb, dtype=float)),
                                                probs=row), name="b")
-        model = lsl.GraphBuilder(to_float32=False).add(va, vb).build_model()
+        extra = []
+        if spec.get("derived"):
+            # derived nodes that NO distribution depends on (not upstream of the log-prob): a user kernel function
+            # may read them; they must be up to date in every model state a kernel is handed
+            extra = [lsl.Var(lsl.Calc(lambda v: v + 0.0, va), name="da"), lsl.Var(lsl.Calc(lambda v: v + 0.0, vb), name="db")]
+        model = lsl.GraphBuilder(to_float32=False).add(va, vb, *extra).build_model()
         iface = gs.LieselInterface(model)
         base = model.state
 
@@ -168,9 +173,18 @@ def fin_env(spec):
     for i, k in enumerate(spec["kernels"]):
         blk = k["blk"]
         other = "b" if blk == "a" else "a"
+        okey = ("d" + other) if k.get("reads") == "derived" else other     # where the kernel function reads the rest
         n = size[blk]
         if k["type"] == "gibbs":
-            if spec["iface"] == "liesel":
+            if k.get("reads") == "derived":
+                lwt = jnp.asarray(np.log(w))
+
+                def trans(prng_key, model_state, blk=blk, okey=okey, n=n):
+                    r = jnp.asarray(iface.extract_position([okey], model_state)[okey]).astype(int)
+                    logits = lwt[:, r] if blk == "a" else lwt[r, :]
+                    return {blk: jnp.arange(n, dtype=float)[jax.random.categorical(prng_key, logits=logits)]}
+                ker = gs.GibbsKernel([blk], trans)
+            elif spec["iface"] == "liesel":
                 from liesel.model.goose import finite_discrete_gibbs_kernel
                 ker = finite_discrete_gibbs_kernel(blk, model)
             else:
@@ -185,7 +199,7 @@ def fin_env(spec):
                 corr = np.where((q > 0) & (np.swapaxes(q, 1, 2) > 0), np.log(np.swapaxes(q, 1, 2) / q), 0.0)
             corr = jnp.asarray(np.nan_to_num(corr * k.get("corr_scale", 1.0)))
 
-            def prop(key, model_state, step, blk=blk, other=other, corr=corr):
+            def prop(key, model_state, step, blk=blk, other=okey, corr=corr):
                 p = iface.extract_position([blk, other], model_state)
                 cur, rest = jnp.asarray(p[blk]), jnp.asarray(p[other])
 
@@ -677,6 +691,32 @@ def cont_emit_goals(ci, c):
 # =================================================================================================
 # glue: HMC / NUTS
 # =================================================================================================
+def lmraw_model(t):
+    """the Liesel linear model with sigma sampled on its ORIGINAL scale (bounded support, no transformation)"""
+    j = J()
+    jnp, np, gs, lsl = j["jnp"], j["np"], j["gs"], j["lsl"]
+    kk = ("raw", tuple(t["ys"]), t["tau"], t["rate"])
+    if kk in _LM_CACHE:
+        return _LM_CACHE[kk]
+    import tensorflow_probability.substrates.jax.distributions as tfd
+    ys = np.array([float(fr(v)) for v in t["ys"]])
+    mu = lsl.Var(jnp.asarray(0.0), lsl.Dist(tfd.Normal, loc=lsl.Value(np.float64(0.0)),
+                                            scale=lsl.Value(np.float64(float(fr(t["tau"]))))), name="mu")
+    mu.parameter = True
+    sigma = lsl.Var(jnp.asarray(1.0), lsl.Dist(tfd.Exponential, rate=lsl.Value(np.float64(float(fr(t["rate"]))))), name="sigma")
+    sigma.parameter = True
+    y = lsl.Var(ys, lsl.Dist(tfd.Normal, loc=mu, scale=sigma), name="y")
+    y.observed = True
+    model = lsl.GraphBuilder(to_float32=False).add(y).build_model()
+    _LM_CACHE[kk] = (gs.LieselInterface(model), model.state)
+    return _LM_CACHE[kk]
+
+
+def xcls(v):
+    v = float(v)
+    return "nan" if math.isnan(v) else ("inf" if v == math.inf else ("-inf" if v == -math.inf else v))
+
+
 def glue_env(spec):
     j = J()
     jnp, gs = j["jnp"], j["gs"]
@@ -688,6 +728,28 @@ def glue_env(spec):
         dens = lambda p: -p["a"] ** 2 / 2 - (p["b"] - p["a"]) ** 2 / 2
         coq = lambda p: f"lp_pair {rlit(p['a'])} {rlit(p['b'])}"
         names = {"a": "a", "b": "b"}
+    elif m["name"] == "pg":
+        # Poisson-Gamma posterior on its original scale: log lam - 3 lam; NaN for lam < 0, -inf at 0 (jnp.log)
+        if "pg" not in _IFACE:
+            _IFACE["pg"] = gs.DictInterface(lambda st: jnp.log(st["lam"]) - 3.0 * st["lam"])
+        iface = _IFACE["pg"]
+        state_of = lambda p: {"lam": jnp.asarray(float(fr(p["lam"])))}
+        dens = lambda p: jnp.log(p["lam"]) - 3.0 * p["lam"]
+        coq = lambda p: f"(ln {rlit(p['lam'])} - 3 * {rlit(p['lam'])})"
+        names = {"lam": "lam"}
+    elif m["name"] == "lmraw":
+        iface, base = lmraw_model(m)
+        names = {"mu": "mu", "sigma": "sigma"}
+        ys = jnp.asarray([float(fr(v)) for v in m["ys"]])
+        tau, rate = float(fr(m["tau"])), float(fr(m["rate"]))
+        state_of = lambda p: iface.update_state({k: jnp.asarray(float(fr(p[k]))) for k in ("mu", "sigma")}, base)
+        g = lambda y, mm, sd: -jnp.log(sd) - (y - mm) ** 2 / (2 * sd * sd) - jnp.log(2 * jnp.pi) / 2
+
+        def dens(p):
+            s = p["sigma"]
+            return jnp.sum(g(ys, p["mu"], s)) + g(p["mu"], 0.0, tau) + (jnp.log(rate) - rate * s)
+        pre = f"{lst(rlit(fr(v)) for v in m['ys'])} {rlit(fr(m['tau']))} {rlit(fr(m['rate']))}"
+        coq = lambda p: f"(lp_lm {pre} {rlit(p['mu'])} (ln {rlit(p['sigma'])}) - ln {rlit(p['sigma'])})"
     else:
         iface, base, thname = lm_model(m)
         names = {"mu": "mu", "theta": thname}
@@ -719,12 +781,44 @@ def glue_observe(spec):
         ker = gs.NUTSKernel(pkeys, max_treedepth=spec["n"], initial_step_size=step, initial_inverse_mass_matrix=imm)
     ker.set_model(iface)
     st = state_of(spec["pos"])
-    key = jax.random.PRNGKey(spec["seed"])
-    ks = ker.init_state(key, st)
-    ep = epoch(spec.get("epoch", "posterior"))
     all_l = sorted(names)
     rev = {v: k for k, v in names.items()}
     obs = {}
+    # reference: blackjax on the harness's own closed-form density of the block, rest fixed
+    fixed = {l: float(fr(spec["pos"][l])) for l in all_l if l not in blocks}
+
+    def ld(p):
+        return dens({**{rev[k]: v for k, v in p.items()}, **fixed})
+    pos0 = {names[b]: jnp.asarray(float(fr(spec["pos"][b]))) for b in blocks}
+    if spec["kernel"] == "hmc":
+        ref = blackjax.hmc(ld, step_size=step, inverse_mass_matrix=imm, num_integration_steps=spec["n"])
+    else:
+        ref = blackjax.nuts(ld, step_size=step, inverse_mass_matrix=imm, max_num_doublings=spec["n"])
+    ref_step = jax.jit(ref.step)
+    seed = spec["seed"]
+    if spec.get("seeds"):
+        # boundary stratum: take the first key for which the reference trajectory leaves the support
+        # (blackjax rejects it: NaN energy); the real kernel must then stay where it is, too
+        seed = spec["seeds"][0]
+        for sd in spec["seeds"]:
+            s1, info = ref_step(jax.random.PRNGKey(sd), ref.init(pos0))
+            stay = all(float(s1.position[names[b]]) == float(fr(spec["pos"][b])) for b in blocks)
+            if stay and (spec["kernel"] == "nuts" or float(info.acceptance_rate) == 0.0):
+                seed = sd
+                obs["reference_left_support"] = True
+                break
+    obs["seed_used"] = seed
+    key = jax.random.PRNGKey(seed)
+    ks = ker.init_state(key, st)
+    ep = epoch(spec.get("epoch", "posterior"))
+    # (g0) log_prob_fn against the model's own block log-density (log_prob o update_state) at every probe,
+    #      including points where the density is NaN / -inf / +inf
+    obs["probes"] = []
+    lpf = ker.log_prob_fn(st)
+    for pr in spec.get("probe_list", []):
+        pp = {names[b]: jnp.asarray(float(fr(pr[b]))) for b in blocks}
+        obs["probes"].append({"at": pr, "lpf": xcls(lpf(pp)), "model": xcls(iface.log_prob(iface.update_state(pp, st))),
+                              "closed_form": xcls(ld(pp))})
     # (g1) log_prob_fn at a probe position of the block, the rest as in the state
     probe = {names[b]: jnp.asarray(float(fr(spec["probe"][b]))) for b in blocks}
     obs["lpf"] = float(ker.log_prob_fn(st)(probe))
@@ -738,18 +832,8 @@ def glue_observe(spec):
     obs["ks_same"] = kstate_sig(out.kernel_state) == kstate_sig(ks)
     obs["acc"] = float(out.info.acceptance_prob)
     obs["code"] = int(out.info.error_code)
-    obs["lp_new_coq"] = coq({l: F(obs["new"][l]) for l in all_l})
-    # reference: blackjax on the harness's own closed-form density of the block, rest fixed
-    fixed = {l: float(fr(spec["pos"][l])) for l in all_l if l not in blocks}
-
-    def ld(p):
-        return dens({**{rev[k]: v for k, v in p.items()}, **fixed})
-    pos0 = {names[b]: jnp.asarray(float(fr(spec["pos"][b]))) for b in blocks}
-    if spec["kernel"] == "hmc":
-        ref = blackjax.hmc(ld, step_size=step, inverse_mass_matrix=imm, num_integration_steps=spec["n"])
-    else:
-        ref = blackjax.nuts(ld, step_size=step, inverse_mass_matrix=imm, max_num_doublings=spec["n"])
-    s1, info = jax.jit(ref.step)(key, ref.init(pos0))
+    obs["lp_new_coq"] = coq({l: F(obs["new"][l]) for l in all_l}) if all(math.isfinite(v) for v in obs["new"].values()) else "0"
+    s1, info = ref_step(key, ref.init(pos0))
     obs["ref"] = {rev[k]: float(v) for k, v in s1.position.items()}
     obs["ref_acc"] = float(info.acceptance_rate)
     return obs
@@ -757,7 +841,17 @@ def glue_observe(spec):
 
 def glue_oracle(c):
     spec, o = c["spec"], c["obs"]
-    desc = f"{spec['kernel']} on blocks {spec['blocks']} of {spec['model']['name']} (seed {spec['seed']}, step {spec['step']})"
+    desc = f"{spec['kernel']} on blocks {spec['blocks']} of {spec['model']['name']} (seed {o.get('seed_used', spec['seed'])}, step {spec['step']}, start {spec['pos']})"
+    for pr in o.get("probes", []):
+        for other in ("model", "closed_form"):
+            a, b = pr["lpf"], pr[other]
+            same = (a == b) if isinstance(a, str) or isinstance(b, str) else abs(a - b) <= 1e-8 * (1 + abs(b))
+            if not same:
+                return (f"{desc}: log_prob_fn at {pr['at']} returns {a} but the model's block log-density there is {b} ({other}): the "
+                        "kernel does not target exp(block log-density) with weight zero where the density is undefined")
+    if not math.isfinite(o["lp_new"]):
+        return (f"{desc}: the transition moved to {o['new']} where the model log-density is {o['lp_new']} (outside the support), "
+                f"reported acceptance probability {o['acc']}")
     for l, v in o["new"].items():
         if l in spec["blocks"]:
             if abs(v - o["ref"][l]) > 1e-7 * (1 + abs(v)):
@@ -772,11 +866,30 @@ def glue_oracle(c):
     return None
 
 
+def xlit(v):
+    if isinstance(v, str):
+        return {"nan": "XNaN", "-inf": "XNegInf", "inf": "XPosInf"}[v]
+    f = F(v)
+    return f"(XFin (Qmake {common.zlit(f.numerator)} {f.denominator}))"
+
+
+def glue_emit_probes(ctx, ci, c):
+    pr = c["obs"].get("probes")
+    if not pr:
+        return None
+    rows = lst(f"({xlit(p['lpf'])}, {xlit(p['model'])})" for p in pr)
+    txt = ("From Coq Require Import List Bool QArith.\nImport ListNotations.\nFrom LV Require Import Base.Xnum Goose.CorrC04Keys.\n"
+           f"Lemma c{ci}_log_prob_fn_classes : probes_ok {rows} = true.\nProof. vm_compute. reflexivity. Qed.\n")
+    return ctx.new_shard(txt, f"c{ci:03d}_probes")
+
+
 def glue_emit_goals(ci, c):
     o = c["obs"]
     t8 = rlit(Fraction(1, 10 ** 8))
-    return [(f"c{ci}_log_prob_fn", f"Rabs ({o['lpf_coq']} - {rlit(F(o['lpf']))}) <= {t8}"),
-            (f"c{ci}_written_back", f"Rabs ({o['lp_new_coq']} - {rlit(F(o['lp_new']))}) <= {t8}")]
+    # a non-finite observation where the model is finite (or a move out of the support) cannot agree: the lemma is False
+    g1 = f"Rabs ({o['lpf_coq']} - {rlit(F(o['lpf']))}) <= {t8}" if math.isfinite(o["lpf"]) else "False"
+    g2 = f"Rabs ({o['lp_new_coq']} - {rlit(F(o['lp_new']))}) <= {t8}" if math.isfinite(o["lp_new"]) else "False"
+    return [(f"c{ci}_log_prob_fn", g1), (f"c{ci}_written_back", g2)]
 
 
 # =================================================================================================
@@ -963,6 +1076,11 @@ CORPUS_FIN = [
      "kernels": [{"type": "gibbs", "blk": "a"},
                  {"type": "mh", "blk": "b", "q": [[["1/2", "1/2"], ["1/4", "3/4"]], [["1/2", "1/2"], ["1/4", "3/4"]]]}]},
 ]
+CORPUS_FIN.append(
+    # Liesel model whose user kernel functions read DERIVED nodes (copies of a / b that no distribution depends on)
+    {"iface": "liesel", "na": 2, "nb": 2, "w": [["1", "1/2"], ["1/4", "2"]], "derived": True,
+     "kernels": [{"type": "mh", "blk": "a", "reads": "derived", "q": [[["1/2", "1/2"], ["1/4", "3/4"]], [["1/4", "3/4"], ["7/8", "1/8"]]]},
+                 {"type": "gibbs", "blk": "b", "reads": "derived"}]})
 LM1 = {"name": "lm", "ys": ["1/2", "5/4", "-3/4", "2", "1"], "tau": "2", "rate": "1/2"}
 CORPUS_CONT = [
     {"target": {"name": "gauss", "m": "1", "s": "1/2"}, "kernel": "rw", "step": "1/2", "x": "3/8", "z": "-1/4"},
@@ -981,6 +1099,20 @@ CORPUS_GLUE = [
 ]
 
 
+LMRAW1 = {"name": "lmraw", "ys": ["1/2", "5/4", "-3/4", "2", "1"], "tau": "2", "rate": "1/2"}
+CORPUS_SUPPORT = [
+    # bounded parameter on its original scale, log-density NaN below 0 and -inf at 0 (dict model)
+    {"kernel": "hmc", "model": {"name": "pg"}, "blocks": ["lam"], "imm": ["1"], "step": "1/2", "n": 3, "seed": 0,
+     "seeds": list(range(40)), "pos": {"lam": "1/8"}, "probe": {"lam": "3/4"},
+     "probe_list": [{"lam": "3/4"}, {"lam": "-1/2"}, {"lam": "0"}, {"lam": "-3"}, {"lam": "1/1024"}]},
+    {"kernel": "nuts", "model": {"name": "pg"}, "blocks": ["lam"], "imm": ["1"], "step": "3/4", "n": 2, "seed": 0,
+     "seeds": list(range(40)), "pos": {"lam": "1/16"}, "probe": {"lam": "1/2"},
+     "probe_list": [{"lam": "1/2"}, {"lam": "-1/4"}, {"lam": "0"}]},
+    # Liesel model, sigma untransformed: NaN for sigma < 0
+    {"kernel": "hmc", "model": dict(LMRAW1), "blocks": ["sigma"], "imm": ["1"], "step": "3/4", "n": 2, "seed": 0,
+     "seeds": list(range(40)), "pos": {"mu": "1/2", "sigma": "1/4"}, "probe": {"sigma": "3/2"},
+     "probe_list": [{"sigma": "3/2"}, {"sigma": "-1"}, {"sigma": "0"}, {"sigma": "-1/8"}]},
+]
 CORPUS_KEYS = [
     {"mode": "record", "m": 2, "T": 4, "seed": 0},
     {"mode": "record", "m": 3, "T": 5, "seed": 1337, "epoch": "burnin"},
@@ -1051,12 +1183,13 @@ def observe(c, **kw):
 def describe(c):
     s = c["spec"]
     if c["kind"] == "fin":
-        return f"fin.{s['iface']}.{s['na']}x{s['nb']}." + "+".join(f"{k['type']}_{k['blk']}" for k in s["kernels"])
+        return (f"fin.{s['iface']}.{s['na']}x{s['nb']}." + "+".join(f"{k['type']}_{k['blk']}" for k in s["kernels"])
+                + (".reads_derived_nodes" if s.get("derived") else ""))
     if c["kind"] == "cont":
         return f"cont.{s['kernel']}.{s['target']['name']}" + ("." + s["target"]["blk"] if "blk" in s["target"] else "")
     if c["kind"] == "keys":
         return f"keys.record.{s['m']}kernels" if s["mode"] == "record" else "keys.coupling." + "+".join(s["kernels"])
-    return f"glue.{s['kernel']}.{s['model']['name']}." + "+".join(s["blocks"])
+    return f"glue.{s['kernel']}.{s['model']['name']}." + "+".join(s["blocks"]) + (".boundary" if s.get("seeds") else "")
 
 
 def specs(ctx, rnd):
@@ -1064,7 +1197,24 @@ def specs(ctx, rnd):
     out = [{"kind": "fin", "spec": dict(s)} for s in CORPUS_FIN]
     out += [{"kind": "cont", "spec": dict(s)} for s in CORPUS_CONT]
     out += [{"kind": "glue", "spec": dict(s)} for s in CORPUS_GLUE]
+    out += [{"kind": "glue", "spec": dict(s)} for s in CORPUS_SUPPORT]
     out += [{"kind": "keys", "spec": dict(s)} for s in CORPUS_KEYS]
+    if not q:
+        for _ in range(6):
+            if rnd.random() < 0.5:
+                out.append({"kind": "glue", "spec": {
+                    "kernel": rnd.choice(["hmc", "nuts"]), "model": {"name": "pg"}, "blocks": ["lam"], "imm": [str(Fraction(rnd.choice([1, 2, 4]), 2))],
+                    "step": str(Fraction(rnd.choice([2, 3, 4, 6]), 4)), "n": rnd.choice([2, 3]), "seed": 0, "seeds": [rnd.randrange(2 ** 20) for _ in range(40)],
+                    "pos": {"lam": str(Fraction(rnd.choice([1, 2, 3]), 16))}, "probe": {"lam": str(Fraction(rnd.randint(1, 16), 8))},
+                    "probe_list": [{"lam": str(dy(rnd, -2, 2, 8))} for _ in range(5)] + [{"lam": "0"}]}})
+            else:
+                blocks = rnd.choice([["sigma"], ["mu", "sigma"], ["sigma", "mu"]])
+                out.append({"kind": "glue", "spec": {
+                    "kernel": rnd.choice(["hmc", "nuts"]), "model": dict(LMRAW1), "blocks": blocks, "imm": ["1"] * len(blocks),
+                    "step": str(Fraction(rnd.choice([2, 3, 4]), 4)), "n": 2, "seed": 0, "seeds": [rnd.randrange(2 ** 20) for _ in range(40)],
+                    "pos": {"mu": str(dy(rnd, -1, 1, 8)), "sigma": str(Fraction(rnd.choice([1, 2, 3]), 8))},
+                    "probe": {b: str(Fraction(rnd.randint(1, 16), 8)) for b in blocks},
+                    "probe_list": [{b: str(dy(rnd, -2, 2, 8)) for b in blocks} for _ in range(5)]}})
     for _ in range(1 if q else 8):
         out.append({"kind": "keys", "spec": {"mode": "record", "m": rnd.choice([2, 3, 4]), "T": rnd.choice([3, 6, 8]),
                                              "seed": rnd.randrange(2 ** 31), "epoch": rnd.choice(["posterior", "burnin"])}})
@@ -1176,6 +1326,9 @@ def emit(ctx, cases):
                 goals += [(i, n, g) for n, g in cont_emit_goals(i, c)]
         else:
             goals += [(i, n, g) for n, g in glue_emit_goals(i, c)]
+            p = glue_emit_probes(ctx, i, c)
+            if p:
+                shards.append((p, [i]))
     per = 36
     for k in range(0, len(goals), per):
         chunk = goals[k:k + per]
@@ -1242,8 +1395,13 @@ def py_disagree(ci, c):
         allp = {l: float(fr(spec["probe"][l])) if l in spec["blocks"] else float(fr(spec["pos"][l])) for l in spec["pos"]}
         if abs(float(dens(allp)) - o["lpf"]) > 1e-8:
             bad.append(f"c{ci}_log_prob_fn")
-        if abs(float(dens(o["new"])) - o["lp_new"]) > 1e-8:
+        if abs(float(dens(o["new"])) - o["lp_new"]) > 1e-8 or not math.isfinite(o["lp_new"]):
             bad.append(f"c{ci}_written_back")
+        for pr in o.get("probes", []):
+            a, b = pr["lpf"], pr["model"]
+            if not ((a == b) if isinstance(a, str) or isinstance(b, str) else abs(a - b) <= 1e-8):
+                bad.append(f"c{ci}_log_prob_fn_classes")
+                break
     return bad
 
 
